@@ -22,6 +22,11 @@ TRUSTED = ['rustc MIR construction', 'crossbeam-channel: Select::ready blocks wh
 TH = 'hot_reloading::hot_reloading_thread'
 
 
+BLOCKING = re.compile(r"^crossbeam_channel::Receiver::<T>::(recv|recv_timeout|recv_deadline|iter)$|crossbeam_channel::Receiver<.*> as std::iter::IntoIterator>::into_iter$"
+                      r"|^<crossbeam_channel::(Iter|IntoIter)<.*> as std::iter::Iterator>::next$|^crossbeam_channel::Select::<'a>::(select|ready|select_timeout|ready_timeout|select_deadline|ready_deadline)$"
+                      r"|^std::thread::(sleep|park|park_timeout)$|^std::sync::mpsc::Receiver::<T>::(recv|iter)|Condvar::wait")
+
+
 def has_cycle(b, removed_blocks, removed_edges):
     live = b.reachable([0], removed_edges=removed_edges, removed_blocks=removed_blocks)
     color = {}
@@ -102,8 +107,9 @@ def r5(R5, cfg, F):
         for bb, t in b.terms():
             if t['k'] != 'switch' or bb not in can_send or b.blocks[bb]['cleanup']:
                 continue
-            if all(d in can_send for d, _ in b.edges(bb)):
-                continue
+            rets = set(b.return_blocks())
+            if not [d for d, _ in b.edges(bb) if d not in can_send and (b.reachable([d]) & rets)]:
+                continue        # (an edge that ends in `unreachable` -- the impossible arm of an exhaustive match -- or diverges decides nothing)
             # a decision that can take the send away
             root = None
             for c, truth in _bool_call_of(b, bb):
@@ -184,6 +190,17 @@ def run(ctx):
                        'distinguishing the two, so after the sender is dropped Select::ready returns immediately forever' if ready[0].bb in reach
                        else 'Disconnected does not reach the end of the thread function')
             R2.check(ok, cfg, TH, 'disconnected-not-handled:' + str(nm), 'receiver `%s`: %s' % (nm, why), r.loc(), receiver=nm)
+        # ... and once the loop is left the thread ends: nothing between the loop and the return waits again (a blocking
+        # iterator over a channel whose senders outlive the cache never ends)
+        live = b.live_blocks(unwind=False)
+        after = [bb for bb in sorted(live) if ready[0].bb not in b.reachable([bb])]
+        waits = [c for c in b.calls() if c.bb in after and c.callee and BLOCKING.search(c.callee.best)]
+        for cb_ in F.closures_of.get(b.path, []):
+            sites = common.closure_sites(b, cb_.path)
+            if sites and all(x[0] in after for x in sites):
+                waits += [c for c in cb_.calls() if c.callee and BLOCKING.search(c.callee.best)]
+        R2.check(not waits, cfg, TH, 'ends-without-waiting', 'after leaving its loop the thread waits again (%s): it does not exit while a sender is alive, its receivers are never dropped, and the sources / watcher never learn that the cache is gone'
+                 % sorted({c.callee.best for c in waits}), waits[0].loc() if waits else b.loc())
         # R3
         hb = F.one(r'^<hot_reloading::watcher::NotifyEventHandler as notify::EventHandler>::handle_event$')
         if not hb:
